@@ -64,6 +64,48 @@ bool shake(lsearchk_t& ls, vt::Rng& rng)
     return changed;
 }
 
+// the wrapped objective inside a ball, +inf or NaN (with a NaN gradient) outside: a function with a bounded domain, as the solvers meet them
+// (log / sqrt terms, overflow); trial steps that leave the ball produce invalid states
+class barrier_t final : public function_t
+{
+public:
+    explicit barrier_t(const function_t& inner)
+        : function_t("verif-barrier", inner.size())
+        , m_inner(inner)
+    {
+        convex(inner.convex() ? convexity::yes : convexity::no);
+        smooth(inner.smooth() ? smoothness::yes : smoothness::no);
+    }
+
+    rfunction_t clone() const override { return std::make_unique<barrier_t>(*this); }
+
+    void set(vector_t center, double radius, bool nan)
+    {
+        m_center = std::move(center);
+        m_radius = radius;
+        m_nan    = nan;
+    }
+
+    scalar_t do_vgrad(vector_cmap_t x, vector_map_t gx) const override
+    {
+        if (m_center.size() == x.size() && (x.vector() - m_center.vector()).norm() > m_radius)
+        {
+            if (gx.size() == x.size())
+            {
+                gx.full(std::nan(""));
+            }
+            return m_nan ? std::nan("") : HUGE_VAL;
+        }
+        return m_inner.vgrad(x, gx);
+    }
+
+private:
+    const function_t& m_inner;
+    vector_t          m_center;
+    double            m_radius{HUGE_VAL};
+    bool              m_nan{false};
+};
+
 double absdot(const vector_t& a, const vector_t& b)
 {
     double s = 0;
@@ -117,7 +159,15 @@ int main(int argc, char* argv[])
         const auto  quadratic = rng.coin(1, 3);
         bool        defaults  = true;
         double      c1 = 1e-4, c2 = 0.1;
-        if (!(quadratic && rng.coin(2, 3)))
+        // the tolerance pairs the solvers install themselves: (1e-4, 0.9) (lbfgs, quasi-Newton) and (0.1, 0.9) (gd), strategy parameters at
+        // their defaults
+        const auto installed = rng.coin(1, 6);
+        if (installed)
+        {
+            std::tie(c1, c2) = rng.coin() ? std::make_tuple(1e-4, 0.9) : std::make_tuple(0.1, 0.9);
+            ls->parameter("lsearchk::tolerance") = std::make_tuple(c1, c2);
+        }
+        else if (!(quadratic && rng.coin(2, 3)))
         {
             c1 = rng.coin(1, 6) ? rng.uniform(0.4, 0.99) : std::pow(10.0, rng.uniform(-8.0, -0.4));
             c2 = c1 + (1.0 - c1) * (rng.coin(1, 6) ? rng.pick(std::vector<double>{1e-3, 0.999}) : rng.uniform(0.02, 0.98));
@@ -143,7 +193,12 @@ int main(int argc, char* argv[])
             inner = functions[static_cast<size_t>(rng.range(0, static_cast<int64_t>(functions.size()) - 1))].get();
         }
         const auto n = inner->size();
-        vt::counting_function_t function(*inner);
+        // extreme: 0 = none; 1 = the objective is +inf / NaN outside a ball around x (radius relative to the first trial step: the initial
+        // step, or a later extrapolation, leaves the domain); 2 = a direction 1e-15..1e-9 times the gradient (the first trials do not change
+        // the value); only the general clauses apply to these searches
+        const int extreme = rng.coin(1, 5) ? static_cast<int>(rng.range(1, 2)) : 0;
+        barrier_t barrier(*inner);
+        vt::counting_function_t function(extreme == 1 ? static_cast<const function_t&>(barrier) : *inner);
         const auto radius = std::pow(10.0, quadratic ? rng.uniform(-1.0, 1.0) : rng.uniform(-2.0, 3.0));
         const auto x0     = vt::random_x0(rng, n, radius);
 
@@ -185,14 +240,19 @@ int main(int argc, char* argv[])
             d(0)     = state.gx()(1);
             d(1)     = -state.gx()(0);
         }
-        d.vector() *= std::pow(10.0, rng.uniform(-2.0, 2.0));
+        d.vector() *= std::pow(10.0, extreme == 2 ? rng.uniform(-15.0, -9.0) : rng.uniform(-2.0, 2.0));
         const auto dg0     = state.gx().dot(d);
         const auto descent = dg0 < 0.0;
         const auto t0      = rng.coin(1, 10) ? rng.pick(std::vector<double>{std::nan(""), HUGE_VAL, -HUGE_VAL, 0.0, -1.0}) : std::pow(10.0, rng.uniform(-3.0, 3.0));
-        const auto defaults_run = defaults && kind <= 6 && std::isfinite(t0) && t0 <= 10.0 && t0 >= 1e-2;
+        const auto defaults_run = defaults && extreme == 0 && kind <= 6 && std::isfinite(t0) && t0 <= 10.0 && t0 >= 1e-2;
+        if (extreme == 1)
+        {
+            const auto tfirst = std::isfinite(t0) ? std::clamp(t0, 10.0 * eps, 1.0) : 1.0;
+            barrier.set(x0, tfirst * d.lpNorm<2>() * std::pow(10.0, rng.coin(1, 4) ? rng.uniform(0.0, 1.5) : rng.uniform(-3.0, 0.0)), rng.coin());
+        }
 
-        vt::put(vt::J("Search").i("case", icase).s("algo", id).b("descent", descent).b("quadratic", quadratic).b("defaults", defaults_run).s(
-            "function", inner->name()));
+        vt::put(vt::J("Search").i("case", icase).s("algo", id).b("descent", descent).b("quadratic", quadratic && extreme != 1).b("defaults", defaults_run).s(
+            "function", inner->name()).i("extreme", extreme).b("installed", installed));
         const auto nbefore = function.evals().size();
         bool       ok = false;
         double     t  = 0;
